@@ -81,7 +81,7 @@ def run(tier, seed):
     rnd = random.Random(seed * 7919 + 17)
     n = 90 if tier == "quick" else 1200
     goals, owners, metas, violations, samples, seen = [], [], [], [], [], set()
-    dist = {"2d": 0, "3d": 0, "infer_velocity": 0, "with_missing": 0, "scalar_sigma": 0, "truth_cases": 0, "y0_cases": 0, "source_at_station": 0, "station_major_input": 0}
+    dist = {"2d": 0, "3d": 0, "infer_velocity": 0, "with_missing": 0, "scalar_sigma": 0, "truth_cases": 0, "y0_cases": 0, "source_at_station": 0, "station_major_input": 0, "sibling_instances": 0}
     for i in range(n):
         c = gen(rnd)
         obj = build(c, D)
@@ -90,6 +90,18 @@ def run(tier, seed):
         desc = f"SourceLocation{'3D' if c['three'] else '2D'}(events={c['ne']}, stations={c['ns']}, infer_velocity={c['infer']}, missing={c['pattern']}, sigma={'scalar' if c['sd_scalar'] else 'array'}, layout={c.get('layout')})"
         with numpy.errstate(all="ignore"):
             distgen_disturb(rnd, obj, xa)
+            if rnd.random() < 0.5:
+                # another problem of the same class (another network: moved stations, other picks) evaluated at the same
+                # model just before: instances must not share state
+                other = dict(c, rx=[v + rnd.choice([-0.75, 0.5, 1.25]) for v in c["rx"]], rz=[v + 0.125 for v in c["rz"]],
+                             obs=[[o + 0.25 for o in row] for row in c["obs"]])
+                try:
+                    sib = build(other, D)
+                    sib.misfit(xa.copy())
+                    sib.gradient(xa.copy())
+                    dist["sibling_instances"] += 1
+                except Exception:  # noqa
+                    pass
             mis = float(obj.misfit(xa.copy()))
             grad = col(obj.gradient(xa.copy()))
             fwd = numpy.asarray(obj.forward_vector(xa.copy()), dtype=float)
